@@ -435,7 +435,24 @@ def check_order(fx, rep, rule, wv):
     tys = {f["name"]: f["ty"] for f in cip["variants"][0]["fields"]}
     rep.check(rule, "%s/container/members" % rule, tys.get("members", "").startswith("std::collections::BTreeMap<&") and "Vec<cache::raw::Member>" in tys.get("members", ""),
               loc=F.short_file(cip["sp"]), found="members: %s" % tys.get("members"), expected="BTreeMap<&str, Vec<Member>> (sorted by obfuscated name, file order within)")
-    rep.check(rule, "%s/container/members_by_params" % rule, tys.get("members_by_params", "").startswith("std::collections::BTreeMap<(&") and "Vec<cache::raw::Member>" in tys.get("members_by_params", ""),
+    def pair_key_ok(ty):
+        """(&str, &str), or a private struct with derived Eq + Ord whose two fields are both &str (derive(Ord) = lexicographic in
+        declaration order; which field is the name and which the params is checked on the entry() key by the slot rule)"""
+        if ty.startswith("std::collections::BTreeMap<(&"):
+            return True
+        m_ = re.match(r"^std::collections::BTreeMap<([\w:]+)(<[^>]*>)?, ", ty)
+        if not m_:
+            return False
+        nm = m_.group(1).split("::")[-1]
+        derived = {i_.get("trait") for i_ in fx.items["proguard"]["impls"] if i_.get("exp") and i_.get("self", "").split("<")[0].split("::")[-1] == nm}
+        if not {"std::cmp::PartialEq", "std::cmp::Eq", "std::cmp::PartialOrd", "std::cmp::Ord"} <= derived:
+            return False
+        for a_ in fx.all_adts("proguard"):
+            if a_["path"].split("::")[-1] == nm:
+                fl = a_["variants"][0]["fields"]
+                return len(fl) == 2 and all(re.match(r"^&('\w+ )?str$", f_["ty"]) for f_ in fl)
+        return False
+    rep.check(rule, "%s/container/members_by_params" % rule, pair_key_ok(tys.get("members_by_params", "")) and "Vec<cache::raw::Member>" in tys.get("members_by_params", ""),
               loc=F.short_file(cip["sp"]), found="members_by_params: %s" % tys.get("members_by_params"), expected="BTreeMap<(&str, &str), Vec<Member>> (sorted by (name, params))")
     # classes map type from the local variable
     b = wv.rl.body
